@@ -187,9 +187,12 @@ def run(ctx):
     il = ctx.fn(INS + ".nested_sampling_loop")
     ila = FA(il)
     wl2 = [n for n in ila.nodes() if n.kind == "while"]
-    ctx.require(len(wl2) == 1 and const(wl2[0].ast.test, True), "ImportanceNestedSampler.nested_sampling_loop: `while True` not found")
-    fb = wl2[0].ast.body[0]
-    okb = isinstance(fb, ast.If) and sorted(canon(e) for e, t in conjuncts(fb.test, True)) == sorted([cexpr("self.iteration >= self.min_iteration"), "self.reached_tolerance"]) and isinstance(fb.body[0], ast.Break)
+    ctx.require(len(wl2) == 1, "ImportanceNestedSampler.nested_sampling_loop: main loop not found")
+    # the program model writes `while True: if c: break; B` as `while not c: B`; either way the loop is left, before
+    # anything else of the iteration runs, exactly when `reached_tolerance and iteration >= min_iteration`
+    fb = wl2[0].ast.test
+    stop = conjuncts(fb, False)
+    okb = all(t for e, t in stop) and sorted(canon(e) for e, t in stop) == sorted([cexpr("self.iteration >= self.min_iteration"), "self.reached_tolerance"])
     ctx.ob("R-ORDER", "C15.2", il, "importance sampler tests `reached_tolerance and iteration >= min_iteration` first in every iteration and breaks", okb, f"`{src(fb)[:90]}`")
     caps2 = [n for n in ila.nodes() if n.kind == "if" and n.id in ila.cfg.loop_body(wl2[0].id) and canon(n.ast.test) == cexpr("self.iteration >= self.max_iteration") and any(isinstance(s_, ast.Break) for s_ in n.ast.body)]
     ctx.ob("R-ORDER", "C15.2", il, "iteration cap is tested on every cycle of the loop and breaks", _cycle_tests_cap(ila, wl2[0].id, caps2), f"{len(caps2)} cap tests")
